@@ -137,6 +137,7 @@ fn walk_block(b: &mut Block, it: &Item, f: &mut ExprFn) {
         match s {
             Stmt::Let(_, _, e) => walk_expr(e, Role::LetInit, it, f),
             Stmt::Do(e) => walk_expr(e, Role::Stmt, it, f),
+            Stmt::Import(..) => {}
         }
     }
     if let Some(e) = &mut b.last {
@@ -235,6 +236,7 @@ fn blocks_block(b: &mut Block, kind: &BlockKind, it: &Item, f: &mut BlockFn) {
     for s in &mut b.stmts {
         match s {
             Stmt::Let(_, _, e) | Stmt::Do(e) => blocks_expr(e, it, f),
+            Stmt::Import(..) => {}
         }
     }
     if let Some(e) = &mut b.last {
@@ -563,7 +565,67 @@ pub fn mutate(prng: &mut Prng, prog: &Prog, kind: &'static str) -> Option<Mutant
         "out-of-scope" => {
             let mut seed = prng.clone();
             prng.next();
-            if prng.chance(1, 2) {
+            let how = prng.below(6);
+            if how == 4 {
+                // a parameter / local of ANOTHER function (or of a function, inside a constant)
+                let mut owners: Vec<(usize, Vec<usize>)> = Vec::new();
+                for (i, d) in prog.decls.iter().enumerate() {
+                    if let Decl::Fn { params, .. } = d {
+                        owners.push((i, params.iter().map(|p| p.0).collect()));
+                    }
+                }
+                {
+                    let mut tmp = prog.clone();
+                    walk_blocks(&mut tmp, &mut |b, k, it| {
+                        let mut xs = lets_of(b);
+                        if let BlockKind::ForBody(x) = k {
+                            xs.push(*x);
+                        }
+                        if let BlockKind::ArmBody(bs) = k {
+                            xs.extend(bs.iter().cloned());
+                        }
+                        match owners.iter_mut().find(|(i, _)| *i == it.decl) {
+                            Some((_, v)) => v.extend(xs),
+                            None => owners.push((it.decl, xs)),
+                        }
+                    });
+                }
+                let foreign = |decl: usize| -> Vec<usize> {
+                    let own: Vec<usize> = owners.iter().filter(|(i, _)| *i == decl).flat_map(|(_, v)| v.clone()).collect();
+                    owners.iter().filter(|(i, _)| *i != decl).flat_map(|(_, v)| v.clone()).filter(|x| !own.contains(x)).collect()
+                };
+                pick_expr(prng, prog, &|e, _, it| matches!(e, Expr::Var(_)) && !foreign(it.decl).is_empty(), &mut |e, _, it| {
+                    let xs = foreign(it.decl);
+                    let x = *seed.pick(&xs);
+                    *e = Expr::Var(x);
+                    detail = format!("v{x}, a variable of another function, used here");
+                })
+            } else if how == 5 {
+                // a binder of one match arm used in another arm (its guard or its body)
+                pick_expr(
+                    prng,
+                    prog,
+                    &|e, _, _| matches!(e, Expr::Match(_, arms) if arms.len() > 1 && arms.iter().any(|a| matches!(&a.pat, Pat::Variant { binders: Some(bs), .. } if !bs.is_empty()))),
+                    &mut |e, _, _| {
+                        if let Expr::Match(_, arms) = e {
+                            let with: Vec<usize> = (0..arms.len()).filter(|i| matches!(&arms[*i].pat, Pat::Variant { binders: Some(bs), .. } if !bs.is_empty())).collect();
+                            let i = *seed.pick(&with);
+                            let x = match &arms[i].pat {
+                                Pat::Variant { binders: Some(bs), .. } => bs[0],
+                                _ => return,
+                            };
+                            let others: Vec<usize> = (0..arms.len()).filter(|j| *j != i).collect();
+                            let j = *seed.pick(&others);
+                            // not where the other arm binds the same name itself
+                            if matches!(&arms[j].pat, Pat::Variant { binders: Some(bs), .. } if bs.contains(&x)) {
+                                return;
+                            }
+                            arms[j].body.stmts.insert(0, Stmt::Do(Expr::Var(x)));
+                            detail = format!("v{x}, bound by another arm of the match, used in this arm");
+                        }
+                    },
+                )
+            } else if how < 2 {
                 // use before the `let`
                 pick_block(prng, prog, &|b, _, _| !lets_of(b).is_empty(), &mut |b, _, _| {
                     let idx: Vec<usize> = (0..b.stmts.len()).filter(|i| matches!(b.stmts[*i], Stmt::Let(..))).collect();
@@ -1172,6 +1234,7 @@ fn inner_let(s: &Stmt) -> Option<usize> {
     let e = match s {
         Stmt::Do(e) => e,
         Stmt::Let(_, _, e) => e,
+        Stmt::Import(..) => return None,
     };
     match e.strip() {
         Expr::If(_, t, e2) => lets_of(t).first().cloned().or_else(|| e2.as_ref().and_then(|b| lets_of(b).first().cloned())),
